@@ -34,7 +34,7 @@ ASSUMPTIONS = [
     'is returned unchanged by a round is reported (the randomness would be reused or would have to live elsewhere)',
 ]
 SYSTEMS = list(algos.ALGOS) + ['agg_mean', 'agg_uniform', 'agg_rotated', 'agg_drive', 'agg_terngrad']
-SHARDS = {'quick': 8, 'thorough': 14}
+SHARDS = {'quick': 8, 'thorough': 16}
 SHARD_TIMEOUT = {'quick': 900, 'thorough': 3400}
 MIN_HITS = {
     'quick': {**{f'rounds:{s}': 16 for s in SYSTEMS}, **{f'cont:{s}': 12 for s in SYSTEMS},
